@@ -35,11 +35,13 @@ QBad(kind, o, x) ==
       [] kind = "subset" -> IF o.yes # x.yes \/ o.no # x.no THEN "subset" ELSE ""
       [] kind = "conv" ->
            IF o.arr # x.arr THEN "array" ELSE IF o.dict # x.dict THEN "dict"
-           ELSE IF o.idx # x.idx THEN "index" ELSE IF o.varied # x.varied THEN "varied" ELSE ""
+           ELSE IF o.idx # x.idx THEN "index" ELSE IF o.vkeys # x.vkeys THEN "varied-keys"
+           ELSE IF o.varied # x.varied THEN "varied" ELSE ""
       [] kind = "bounds" -> IF o.ub # x.ub THEN "bounds" ELSE ""
       [] kind = "yields" -> IF o.k # [i \in DOMAIN x.k |-> <<x.k[i], 1>>] THEN "yields" ELSE ""
       [] kind = "add" -> IF o.src # x.src THEN "sum-reactions" ELSE IF o.ss # x.ss THEN "sum-substances" ELSE ""
       [] kind = "eq" -> IF o.eq # x.eq THEN "equality" ELSE ""
+      [] kind = "concatn" -> IF o.sum # x.sum THEN "concat-sum" ELSE IF o.dup # x.dup THEN "concat-duplicates" ELSE ""
       [] kind = "concat" -> IF o.sum # x.sum THEN "concat-sum" ELSE IF o.dup # x.dup THEN "concat-duplicates" ELSE ""
 Clean(o) == ~o.raised /\ o.bad = ""
 
@@ -52,6 +54,7 @@ Step(e) ==
       [] e.op = "DoSubset" -> Clean(e.obs) /\ DoSubset(e.i, e.p, e.obs.yes, e.obs.no)
       [] e.op = "DoAdd"    -> Clean(e.obs) /\ DoAdd(e.i, e.j, e.how, e.obs.src, e.obs.ss)
       [] e.op = "Query"    -> Clean(e.obs) /\ Query(e.i, e.kind, e.arg) /\ QBad(e.kind, e.obs, out'.exp) = ""
+      [] e.op = "QueryCat" -> Clean(e.obs) /\ QueryCat(e.js) /\ QBad("concatn", e.obs, out'.exp) = ""
       [] e.op = "Query2"   -> Clean(e.obs) /\ Query2(e.i, e.j, e.kind) /\ QBad(e.kind, e.obs, out'.exp) = ""
       [] OTHER -> FALSE
 
@@ -107,6 +110,10 @@ Clause ==
           (IF ~IsSys(e.i) \/ ~IsSys(e.j) \/ e.kind \notin {"add", "eq", "concat"} THEN "model:Query2"
            ELSE IF ObsFault(e.obs) # "" THEN ObsFault(e.obs)
            ELSE e.kind \o ":" \o QBad(e.kind, e.obs, Query2Exp(ws[e.i], ws[e.j], e.kind)))
+      ELSE IF e.op = "QueryCat" THEN
+          (IF ~(Len(e.js) >= 2 /\ IsInj(e.js) /\ \A k \in DOMAIN e.js : IsSys(e.js[k])) THEN "model:QueryCat"
+           ELSE IF ObsFault(e.obs) # "" THEN ObsFault(e.obs)
+           ELSE "concatn:" \o QBad("concatn", e.obs, ConcatNExp([k \in DOMAIN e.js |-> ws[e.js[k]]])))
       ELSE "model:unknown-op"
 
 Verdict == verdict # "none" =>
